@@ -12,7 +12,7 @@ PROP = {
     "level_note": "Trusted: Lean kernel + 3 standard axioms; the hand model as exercised by the correspondence stream; the harness' reference grid (oracle). "
                   "move_range / copy_range, comments, conditional formats and the auto-filter are modelled and tied by correspondence + reference-grid oracle, "
                   "their whole-sheet refinement statement is not a Lean theorem (the per-range kernel lemma is).",
-    "expect_theorems": ["C07_insert_rows", "C07_insert_cols", "C07_remove_rows", "C07_remove_cols", "C07_remove_undoes_insert_rows",
+    "expect_theorems": ["C07_kernels_match_source", "C07_insert_rows", "C07_insert_cols", "C07_remove_rows", "C07_remove_cols", "C07_remove_undoes_insert_rows",
                         "C07_remove_undoes_insert_cols", "C07_remove_keeps_positive", "C07_range_insert_rows", "C07_range_remove_rows",
                         "C07_range_remove_cols", "C07_other_sheets_untouched"],
     "rule": "random histories (length 1..40 after seeding) on 1-3 sheets: workbook-level (by sheet name) and sheet-level insert/remove of rows/columns, "
